@@ -59,6 +59,10 @@ class Writer:
                     buf.append("'")
             elif ch in '\t\n\r':
                 buf.append(f'&#{ord(ch)};' if not self.varied or r.random() < 0.5 else f'&#x{ord(ch):X};')
+            elif ch == ' ' and self.varied and not safe and r.random() < 0.06:
+                # a literal tab or line break inside an attribute value is a space after attribute-value normalisation
+                # (a CR LF pair is one line break, hence one space)
+                buf.append(r.choice(['\n', '\r\n', '\t']))
             elif self.varied and not safe and r.random() < 0.03:
                 buf.append(r.choice([f'&#{ord(ch)};', f'&#x{ord(ch):x};']))
             else:
